@@ -43,12 +43,10 @@ Fixpoint list_eqb (a b : list Z) : bool :=
 
 Record vst := mkv {
   v_seen : list Z;                    (* pids launched so far *)
-  v_multi : list Z;                   (* those launched in a job of >= 2 processes *)
   v_deliv : list ev;                  (* statuses the kernel has reported so far *)
-  v_expect : option (Z * list Z);     (* a foreground launch whose wait must come next *)
-  v_ps : list Z; v_pc : list Z }.     (* pids with a stop / a continue parked since the last poll *)
+  v_expect : option (Z * list Z) }.   (* a foreground launch whose wait must come next *)
 
-Definition v0 := mkv [] [] [] None [] [].
+Definition v0 := mkv [] [] None.
 
 (** per process (stop cont)* then exit|kill, only for launched processes *)
 Definition ev_ok (seen : list Z) (deliv : list ev) (e : ev) : bool :=
@@ -88,23 +86,11 @@ Definition vcheck (v : vst) (o : op) : bool :=
       evs_ok (v_seen v) (v_deliv v) evs
   end.
 
-Definition is_stop (e : ev) : bool := match e with StoppedE _ _ => true | _ => false end.
-
-Definition parked_stops (fg : list Z) (evs : list ev) : list Z :=
-  map ev_pid (filter (fun e => is_stop e && negb (memZ (ev_pid e) fg)) evs).
-Definition parked_conts (fg : list Z) (evs : list ev) : list Z :=
-  map ev_pid (filter (fun e => is_cont e && negb (memZ (ev_pid e) fg)) evs).
-
 Definition vnext (v : vst) (o : op) : vst :=
   match o with
-  | Launch gid pids bg =>
-      mkv (pids ++ v_seen v)
-          (match pids with _ :: _ :: _ => pids ++ v_multi v | _ => v_multi v end)
-          (v_deliv v) (if bg then None else Some (gid, pids)) (v_ps v) (v_pc v)
-  | Wait gid pids evs =>
-      mkv (v_seen v) (v_multi v) (v_deliv v ++ evs) None
-          (parked_stops pids evs ++ v_ps v) (parked_conts pids evs ++ v_pc v)
-  | Poll evs => mkv (v_seen v) (v_multi v) (v_deliv v ++ evs) None [] []
+  | Launch gid pids bg => mkv (pids ++ v_seen v) (v_deliv v) (if bg then None else Some (gid, pids))
+  | Wait gid pids evs => mkv (v_seen v) (v_deliv v ++ evs) None
+  | Poll evs => mkv (v_seen v) (v_deliv v ++ evs) None
   end.
 
 Fixpoint valid_from (v : vst) (h : list op) : bool :=
@@ -146,33 +132,10 @@ Definition good (h : list op) : bool :=
   | Poll _ => match r_pend (run h) with [] => good_table h | _ => true end
   end.
 
-(** ---- the known failing classes, checked operation by operation against the same bookkeeping *)
 Definition is_stop_or_cont (e : ev) : bool :=
   match e with StoppedE _ _ | Continued _ => true | _ => false end.
 
-(** (count_waited, exit_among_stopped, partial_continue) a stop or continue of a member of a multi-process job *)
-Definition k_member_stop (v : vst) (o : op) : bool :=
-  existsb (fun e => is_stop_or_cont e && memZ (ev_pid e) (v_multi v)) (op_events o).
-
-(** (stop_cont_parked) a stop and a continue of one process, neither applied
-    at once by the wait on its own job, with no poll in between *)
-Definition k_stop_cont_parked (v : vst) (o : op) : bool :=
-  let fg := match o with Wait _ pids _ => pids | _ => [] end in
-  let ps' := parked_stops fg (op_events o) ++ v_ps v in
-  let pc' := parked_conts fg (op_events o) ++ v_pc v in
-  existsb (fun p => memZ p pc') ps'.
-
-Fixpoint known_from (k : vst -> op -> bool) (v : vst) (h : list op) : bool :=
-  match h with [] => false | o :: r => k v o || known_from k (vnext v o) r end.
-
-Definition known_member_stop (h : list op) : bool := known_from k_member_stop v0 h.
-Definition known_stop_cont_parked (h : list op) : bool := known_from k_stop_cont_parked v0 h.
-Definition known (h : list op) : bool := known_member_stop h || known_stop_cont_parked h.
-
-(** the fragment without stop / continue *)
-Definition exit_only (h : list op) : bool := forallb (fun e => negb (is_stop_or_cont e)) (all_events h).
-
-(** ---- witnesses *)
+(** ---- regression histories: the witnesses of the defects repaired in /repo (now good) and two broader ones *)
 Definition w_count_waited : list op :=
   [Launch 3 [3; 9] false; Wait 3 [3; 9] [StoppedE 3 19; Continued 3; Exited 3 0; Exited 9 5]].
 Definition w_stop_cont_parked : list op :=
